@@ -232,6 +232,73 @@ void op_lowmc(const Case& c, TaskCtx& t, Outcome& o) {
     CHECK_FAIL(owned("C10.validate_accepts_wrong_ciphertext", {"C16"}), std::string(p.name) + " " + family_tag(c) + ": validate_keypair accepts a pair whose ciphertext bit " + std::to_string(fb) + " is flipped");
 }
 
+// ------------------------------------------------------------------------------------------------ LowMC in bulk (C10)
+// Volume for data-dependent slips (a shortcut taken when some state bits happen to be zero is reached with probability
+// 2^-25..2^-30 per evaluation): `count` evaluations per operation, keys/plaintexts from one seeded stream mixing random,
+// low-weight and high-weight words; every ciphertext compared with the model.
+void op_lowmcbulk(const Case& c, TaskCtx& t, Outcome& o) {
+  int param = (int)c.i("param", 1), surf = (int)c.i("surf", 0);
+  const model::Params* pp = model::params(param);
+  if (!pp || !generic_enabled(param) || !surface_available(surf, param)) {
+    o.skipped = true;
+    return;
+  }
+  const model::Params& p = *pp;
+  uint64_t count = c.u("count", 1000);
+  Rng r(mix64(c.u("seed", 1) ^ 0x62756c6bULL));
+  bytes skst(surf == 1 ? std::max<size_t>(tc_param_struct_sizes[param][1], 3 * p.ios) : std::max<size_t>(tc_sizeof_privatekey, 1 + 3 * p.ios), 0);
+  bytes pkst(surf == 1 ? std::max<size_t>(tc_param_struct_sizes[param][0], 2 * p.ios) : std::max<size_t>(tc_sizeof_publickey, 1 + 2 * p.ios), 0);
+  size_t o0 = surf == 1 ? 0 : 1;
+  if (surf == 0)
+    skst[0] = (uint8_t)param;
+  uint8_t mask = (uint8_t)(0xff << (8 * p.ios - p.n));
+  Fnv f;
+  uint64_t done = 0;
+  for (uint64_t i = 0; i < count; i++) {
+    uint8_t* ksk = skst.data() + o0;
+    uint8_t* kpt = skst.data() + o0 + 2 * p.ios;
+    unsigned mode = (unsigned)r.below(8);
+    for (int b = 0; b < p.ios; b++) {
+      uint8_t a = (uint8_t)(r.next() >> 56), d = (uint8_t)(r.next() >> 56);
+      if (mode == 6) { // sparse
+        a &= (uint8_t)(r.next() >> 56) & (uint8_t)(r.next() >> 56);
+        d &= (uint8_t)(r.next() >> 56) & (uint8_t)(r.next() >> 56);
+      } else if (mode == 7) { // dense
+        a |= (uint8_t)(r.next() >> 56) | (uint8_t)(r.next() >> 56);
+        d |= (uint8_t)(r.next() >> 56) | (uint8_t)(r.next() >> 56);
+      }
+      ksk[b] = a;
+      kpt[b] = d;
+    }
+    ksk[p.ios - 1] &= mask;
+    kpt[p.ios - 1] &= mask;
+    int rc = libcall(t, [&] { return surf == 1 ? param_api(param).sk_to_pk(skst.data(), pkst.data()) : picnic_sk_to_pk(skst.data(), pkst.data()); });
+    model::BV k = model::bv_from_bytes(ksk, p.n), x = model::bv_from_bytes(kpt, p.n);
+    uint8_t exp[32];
+    model::bv_to_bytes(model::lowmc_encrypt_fast(p.n, p.r, k, x), exp, p.ios);
+    done++;
+    if (rc != 0 || memcmp(exp, pkst.data() + o0, p.ios) != 0) {
+      o.digest = f.h;
+      o.summary = "mismatch at evaluation " + std::to_string(i);
+      if (t.stats)
+        t.stats->hit("c10.bulk_evaluations", (long)done);
+      CHECK_FAIL("C10.ciphertext_differs_from_specification",
+                 std::string("LowMC ") + std::to_string(p.n) + "/" + std::to_string(p.r) + " via " + p.name + " on " + family_tag(c) + " surf" + std::to_string(surf) + ", bulk evaluation " +
+                     std::to_string(i) + " of seed " + c.s("seed") + ": key " + model::hex(ksk, p.ios) + " plaintext " + model::hex(kpt, p.ios) + " got " + model::hex(pkst.data() + o0, p.ios) +
+                     " expected " + model::hex(exp, p.ios));
+      return;
+    }
+    f.buf(exp, 4);
+  }
+  o.digest = f.h;
+  o.summary = std::to_string(count) + " evaluations";
+  if (t.stats) {
+    t.stats->hit("op.lowmcbulk");
+    t.stats->hit("c10.bulk_evaluations", (long)done);
+    t.stats->tuple(std::string("lowmc-") + std::to_string(p.n) + "-" + std::to_string(p.r) + "|" + family_tag(c) + "|surf" + std::to_string(surf) + "|bulk");
+  }
+}
+
 // ------------------------------------------------------------------------------------------------ key store: import (C11, C05)
 void op_import(const Case& c, TaskCtx& t, Outcome& o) {
   int pb = (int)c.i("pb", 1), surf = (int)c.i("surf", 0), q = (int)c.i("param", pb);
@@ -256,9 +323,11 @@ void op_import(const Case& c, TaskCtx& t, Outcome& o) {
     int padbits = 8 * p.ios - p.n;
     if (padbits && c.has("padf")) {
       // padf: bit mask over the fields that get padding value padv
-      unsigned fm = (unsigned)c.i("padf"), pv = (unsigned)c.i("padv") & ((1u << padbits) - 1);
+      unsigned fm = (unsigned)c.i("padf");
       for (size_t f = 0; f < nfields; f++)
         if (fm & (1u << f)) {
+          // one value for all selected fields, or an own value per field (padv0/padv1/padv2)
+          unsigned pv = (unsigned)c.i("padv" + std::to_string(f), c.i("padv")) & ((1u << padbits) - 1);
           ser[1 + (f + 1) * p.ios - 1] |= (uint8_t)pv;
           if (pv)
             padzero = false;
@@ -722,6 +791,7 @@ void op_nist(const Case& c, TaskCtx& t, Outcome& o) {
 void register_key_ops(std::map<std::string, OpFn>& reg) {
   reg["keygen"] = op_keygen;
   reg["lowmc"] = op_lowmc;
+  reg["lowmcbulk"] = op_lowmcbulk;
   reg["import"] = op_import;
   reg["export"] = op_export;
   reg["sizes"] = op_sizes;
